@@ -1,7 +1,8 @@
 /-
   C03 link, byte level (part 6): the final tree `tgtL` of an embedded structured program is the image `EmbTs` of the SOURCE
   statements in the model's AST: if-then nodes with the condition and both branches, `repeat while` nodes, `repeat with` nodes
-  (`type = for`) carrying start value, bound (in the condition), variable name, sign and loop variable — nested as in the source.
+  (`type = for`) carrying start value, bound (in the condition), variable name, sign and loop variable, `repeat with … in` nodes
+  (`type = for_in`, the list as start value) — nested as in the source.
 -/
 import DrxProofs.LinkFlow2Class
 namespace Drx.LinkFlow
@@ -16,6 +17,10 @@ def EmbT : Stmt → Node → Prop
   | .repeatWith (.var .loc v) a b down body, n => ∃ p rp re cp pv1 pv2 ra rb body',
       n = .stmt p (.repeat_ rp re (.binary (cmpName down) cp (.leaf .localVar (.s v) pv1) rb) body' (S "for") ra (.s v)
         (if down then S "-" else S "+") (.leaf .localVar (.s v) pv2)) ∧ Emb a ra ∧ Emb b rb ∧ EmbTs body body'
+  | .repeatIn (.var .loc v) l body, n => ∃ p rp re pb pk pc pl pv ln body',
+      n = .stmt p (.repeat_ rp re (.binary (S "lte") pb (.leaf .const (.s (S "1")) pk)
+          (.callFn (.s (S "count")) pc (.loadList (S "<load_list>") pl [ln]) true false false .none))
+        body' (S "for_in") ln (.s v) [] (.leaf .localVar (.s v) pv)) ∧ Emb l ln ∧ EmbTs body body'
   | s, n => EmbS s n
 def EmbTs : List Stmt → List Node → Prop
   | [], ns => ns = []
@@ -106,7 +111,13 @@ theorem embT_tgtL1 : (s : Stmt) → (x : Src) → EmbSrc1 s x → ∀ (o : Int),
     obtain ⟨sm, p, rfl, _, he, _⟩ := h
     exact ⟨_, rfl, embS_pos _ p _ _ he⟩
   | .tell .., x, h, _ => by obtain ⟨sm, p, rfl, ho, he, hp⟩ := h; exact absurd he (by simp [EmbS])
-  | .repeatIn .., x, h, _ => by obtain ⟨sm, p, rfl, ho, he, hp⟩ := h; exact absurd he (by simp [EmbS])
+  | .repeatIn (.var .loc v) l body, x, h, o => by
+    obtain ⟨presz, bp, incrsz, postsz, csz, body', pb, pk, pc, pl, ps, pg, pl2, pv, ln, rfl, ho, hc, hl, hb⟩ := h
+    have hparts := inParts_emb l ln hl v pb pk pc pl ps pg pl2 pv
+    rw [← hc] at hparts
+    simp only [tgtL1, hparts]
+    exact ⟨_, rfl, _, _, _, _, _, _, _, _, _, _, rfl, hl, embT_tgtL body body' hb _⟩
+  | .repeatIn (.int _) .., x, h, _ => by obtain ⟨sm, p, rfl, ho, he, hp⟩ := h; exact absurd he (by simp [EmbS])
   | .exitRepeat, x, h, _ => by obtain ⟨sm, p, rfl, ho, he, hp⟩ := h; exact absurd he (by simp [EmbS])
   | .repeatWith (.int _) .., x, h, _ => by obtain ⟨sm, p, rfl, ho, he, hp⟩ := h; exact absurd he (by simp [EmbS])
 theorem embT_tgtL : (ss : List Stmt) → (xs : List Src) → EmbSrc ss xs → ∀ (o : Int), EmbTs ss (tgtL o xs)
